@@ -217,11 +217,12 @@ Definition mk_fsc {T} {NT : Num T} (N : nat) (pil : list (list T))
 (* ---- the checkers the harness evaluates ---- *)
 (* evaluator case: generated POMDP + generated controller + the table msdm returned *)
 Definition c09_eval_check {T} {NT : Num T} (p : pomdp T) (f : fsc T) (V : list (list T))
-           (tol M : T) : list bool :=
+           (rep tol vtol M : T) : list bool :=
   [pomdp_wfb p; fsc_wfb p f; abs_benign p;
    fsc_eval_system p f (pabs p) tol (untab2 V);
    fsc_eval_system p f nomask tol (untab2 V);
-   vbound p f M (untab2 V)].
+   vbound p f M (untab2 V);
+   value_ok p f vtol rep (untab2 V)].
 
 (* learner result: returned controller (floats), its value table, reported value *)
 Definition c09_learn_check {T} {NT : Num T} (p : pomdp T) (f : fsc T) (V : list (list T))
